@@ -51,7 +51,8 @@ Record vdef_ (T : Type) := VD { vd_from : N; vd_to : option N; vd_fields : list 
 Arguments VD {T}. Arguments vd_from {T}. Arguments vd_to {T}. Arguments vd_fields {T}.
 
 (* layout facts of an aggregate as the compiler chose them (probed from the real build) *)
-Record lay := Lay { l_size : N; l_align : N; l_offs : list N }.
+(* [l_explicit_discr]: (enums only) some variant declares an explicit discriminant value *)
+Record lay := Lay { l_size : N; l_align : N; l_offs : list N; l_explicit_discr : bool }.
 
 Inductive ty :=
 | TInt (k : ity)
@@ -163,7 +164,8 @@ Fixpoint packed (v : N) (t : ty) : bool :=
       match repr with
       | None => false
       | Some w =>
-          negb (existsb (fun vd => existsb is_ignored (vd_fields vd)) vs)
+          negb (l_explicit_discr l)
+          && negb (existsb (fun vd => existsb is_ignored (vd_fields vd)) vs)
           && (fix go (voffs : list (list N)) (vs : list vdef) : bool :=
                 match voffs, vs with
                 | offs :: ro, vd :: rv =>
